@@ -186,9 +186,28 @@ class State:
         for k in [k for k in self.mem if k == tt or k.startswith(tt + ".") or k.startswith(tt + "[")]:
             del self.mem[k]
 
+    def bump_store(self, tt):
+        """a store to `x.attr...` changes that attribute of x (and what hangs below it), not the rest of x"""
+        m = re.match(r"(\w+)\.(\w+)", tt)
+        if m:
+            self.bump_attrs(m.group(1), [m.group(2)])
+        else:
+            self.bump(_base(tt))
+
+    def bump_attrs(self, recv, attrs):
+        """a method call on `recv` that is known to write only the given attributes of it"""
+        for a in attrs:
+            k = f"{recv}.{a}"
+            self.version[k] = self.version.get(k, 0) + 1
+            for m in [m for m in self.mem if m == k or m.startswith(k + ".") or m.startswith(k + "[")]:
+                del self.mem[m]
+
     def vkey(self, text):
         b = _base(text)
         v = self.version.get(b, 0)
+        m = re.match(r"\w+\.\w+", text)
+        if m:
+            v += self.version.get(m.group(0), 0)
         return text if not v else f"{text}@{v}"
 
 
@@ -319,6 +338,10 @@ class Evaluator:
     # -- public ----------------------------------------------------------
     def paths(self, fn: ast.FunctionDef, params=None, body=None):
         self.fi = FUNC_INDEX.get(id(fn))
+        try:
+            self.hooks.fi = self.fi
+        except Exception:
+            pass
         results = []
         work = [dict()]
         seen = set()
@@ -373,6 +396,17 @@ class Evaluator:
             if isinstance(s.value, ast.Call):
                 self.call(s.value, st, as_stmt=True)
                 return
+            if isinstance(s.value, ast.YieldFrom) and isinstance(s.value.value, (ast.GeneratorExp, ast.ListComp)) and len(s.value.value.generators) == 1:
+                # yield from (e for x in it if c)  ==  for x in it: if c: yield e
+                g = s.value.value.generators[0]
+                y = ast.Expr(value=ast.Yield(value=s.value.value.elt))
+                body = [y] if not g.ifs else [ast.If(test=g.ifs[0] if len(g.ifs) == 1 else ast.BoolOp(op=ast.And(), values=list(g.ifs)), body=[y], orelse=[])]
+                loop = ast.For(target=g.target, iter=g.iter, body=body, orelse=[])
+                ast.fix_missing_locations(ast.copy_location(loop, s))
+                key = id(s)
+                loop = _YF.setdefault(key, (s, loop))[1]
+                self.loop(loop, st)
+                return
             if isinstance(s.value, (ast.Yield, ast.YieldFrom)):
                 v = self.ev(s.value.value, st) if s.value.value is not None else None
                 st.effect("yield" if isinstance(s.value, ast.Yield) else "yield_from", v)
@@ -408,7 +442,7 @@ class Evaluator:
                 r = self.hooks.on_store(tt, ("aug", type(s.op).__name__, v), st)
                 if r is NOTHING:
                     st.effect("aug", tt, type(s.op).__name__, v)
-                st.bump(_base(tt))
+                st.bump_store(tt)
                 st.mem[tt] = new
             return
         if isinstance(s, ast.If):
@@ -448,7 +482,7 @@ class Evaluator:
                 r = self.hooks.on_store(tt, ("del",), st)
                 if r is NOTHING:
                     st.effect("del", tt)
-                st.bump(_base(tt))
+                st.bump_store(tt)
             return
         if isinstance(s, ast.Assert):
             return
@@ -470,7 +504,7 @@ class Evaluator:
         if r is NOTHING:
             st.effect("store", tt, v)
         if "[" in tt:
-            st.bump(_base(tt))  # an element store may alias other element reads of the same container
+            st.bump_store(tt)  # an element store may alias other element reads of the same container
         else:
             st.store_key(tt)
         st.mem[tt] = v
@@ -484,6 +518,8 @@ class Evaluator:
             it = self.ev(s.iter, st)
             ittext = vtext(it)
             concrete = it if isinstance(it, (list, tuple)) else None
+            if concrete is not None and hasattr(self.hooks, "trim"):
+                concrete = self.hooks.trim(concrete)  # a rule may look at the first element(s) of a constant list only
             # a loop over d.values() / d.keys() visits the entries of d.items(): denote its items that way
             part = None
             if concrete is None and isinstance(s.iter, ast.Call) and isinstance(s.iter.func, ast.Attribute) and not s.iter.args and s.iter.func.attr in ("values", "keys"):
@@ -654,11 +690,29 @@ class Evaluator:
             return tt
         if isinstance(e, ast.Subscript):
             sv = self.ev(e.slice, st)
-            return f"{self.subst_text(e.value, st)}[{vtext(sv)}]"
+            bt = self.subst_text(e.value, st)
+            it = vtext(sv)
+            # d[k] where k is the key of the i-th item of d is the value of that item
+            m = re.fullmatch(re.escape(bt) + r"\.items\(\)((?:[#@]\d+)?)\[(\d+)\]\[0\]", it)
+            if m:
+                return f"{bt}.items(){m.group(1)}[{m.group(2)}][1]"
+            return f"{bt}[{it}]"
         if isinstance(e, ast.Call):
             v = self.ev(e, st)
             return vtext(v)
         return u(e)
+
+    def _dict_lookup(self, base, idx, st):
+        """D[k] for a dict display with constant keys: the value of the first key equal to k (a dispatch table is
+        the if/elif chain over its keys); NOTHING when k matches no key (the caller decides: KeyError / default)"""
+        members = base.tag[1]
+        if isinstance(idx, (str, int, float)) or idx is None:
+            return self.ev(members[idx], st) if idx in members else NOTHING
+        if isinstance(idx, Sym) and len(members) <= 12:
+            for c, vnode in members.items():
+                if self._cmp1(ast.Eq(), idx, c, st):
+                    return self.ev(vnode, st)
+        return NOTHING
 
     def closure_text(self, e, st):
         """text of a comprehension / lambda / display with its free local names replaced by the
@@ -679,6 +733,8 @@ class Evaluator:
             v = st.env.get(name, NOTHING)
             if v is NOTHING:
                 continue
+            if isinstance(v, tuple) and all(isinstance(x, (str, int, float)) or x is None for x in v):
+                v = list(v)  # iterating / testing membership in a tuple or a list of constants is the same
             t = vtext(v)
             if t != name and len(t) < 400:
                 m[name] = t
@@ -695,11 +751,12 @@ class Evaluator:
                         order.append(x.arg)
         for i, name in enumerate(order):
             m[name] = f"_c{i}"
-        if not m and not st.mem:
-            return u(e)
         import copy
 
         e2 = _Rename(m).visit(copy.deepcopy(e))
+        for n in ast.walk(e2):
+            if isinstance(n, ast.comprehension) and isinstance(n.iter, ast.Tuple) and all(isinstance(x, ast.Constant) for x in n.iter.elts):
+                n.iter = ast.copy_location(ast.List(elts=n.iter.elts, ctx=ast.Load()), n.iter)  # iterating a tuple or a list of constants
 
         class _Mem(ast.NodeTransformer):
             def visit_Attribute(self_, n):
@@ -727,6 +784,9 @@ class Evaluator:
                 return st.env[e.id]
             if e.id in ("True", "False", "None"):
                 return {"True": True, "False": False, "None": None}[e.id]
+            k = _module_constant(self.fi, e.id)
+            if k is not None:
+                return self.ev(k, st)  # a module-level table of constants is its literal
             return Sym(e.id)
         if isinstance(e, (ast.List, ast.Tuple)):
             vals = [self.ev(x, st) for x in e.elts]
@@ -743,6 +803,11 @@ class Evaluator:
                     idx = self.ev(e.slice, st)
                     if isinstance(idx, int) and -len(base) <= idx < len(base):
                         return base[idx]
+                if isinstance(base, Sym) and base.tag and base.tag[0] == "dict" and base.tag[1] is not None and not isinstance(e.slice, ast.Slice) and isinstance(e.ctx, ast.Load):
+                    idx = self.ev(e.slice, st)
+                    got = self._dict_lookup(base, idx, st)
+                    if got is not NOTHING:
+                        return got
                 if isinstance(base, dict):
                     idx = self.ev(e.slice, st)
                     try:
@@ -812,6 +877,8 @@ class Evaluator:
                     val = self.ev(v.value, st)
                     if isinstance(val, str) and v.conversion == -1 and v.format_spec is None:
                         parts.append(("lit", val))
+                    elif _is_f(val) and v.conversion == -1 and v.format_spec is None:
+                        parts.extend(val.tag[2])  # an f-string spliced into an f-string
                     else:
                         parts.append(("val", vtext(val)))
             return _fstring(parts, e)
@@ -820,9 +887,15 @@ class Evaluator:
         if isinstance(e, (ast.ListComp, ast.SetComp, ast.GeneratorExp, ast.DictComp)):
             return Sym("comp:" + self.closure_text(e, st), tag=("comp", e))
         if isinstance(e, ast.Dict):
-            return Sym("dict:" + self.closure_text(e, st))
+            members = None
+            if e.keys and all(isinstance(k, ast.Constant) for k in e.keys):
+                members = {k.value: v for k, v in zip(e.keys, e.values)}
+            return Sym("dict:" + self.closure_text(e, st), tag=("dict", members, e))
         if isinstance(e, ast.Set):
-            return Sym("set:" + self.closure_text(e, st))
+            members = None
+            if e.elts and all(isinstance(k, ast.Constant) for k in e.elts):
+                members = {k.value: None for k in e.elts}
+            return Sym("set:" + self.closure_text(e, st), tag=("set", members, e))
         if isinstance(e, ast.Starred):
             return Sym("*" + vtext(self.ev(e.value, st)))
         if isinstance(e, ast.Slice):
@@ -856,6 +929,34 @@ class Evaluator:
         r = self.hooks.on_call(c, ftext, args, kwargs, st)
         if r is not NOTHING:
             return r
+        if isinstance(c.func, ast.Attribute) and c.func.attr == "keys" and not args and not kwargs:
+            base = self.ev(c.func.value, st)
+            if isinstance(base, Sym) and base.tag and base.tag[0] == "dict" and base.tag[1] is not None:
+                return base  # for membership and iteration d.keys() is d
+        if isinstance(c.func, ast.Attribute) and c.func.attr == "get" and len(args) in (1, 2) and not kwargs:
+            base = self.ev(c.func.value, st)
+            if isinstance(base, Sym) and base.tag and base.tag[0] == "dict" and base.tag[1] is not None:
+                got = self._dict_lookup(base, args[0], st)
+                return got if got is not NOTHING else (args[1] if len(args) == 2 else None)
+        if isinstance(c.func, ast.Attribute) and c.func.attr == "join" and len(args) == 1 and not kwargs:
+            sep = self.ev(c.func.value, st)
+            if isinstance(sep, str) and isinstance(args[0], (list, tuple)) and all(isinstance(x, str) for x in args[0]):
+                return sep.join(args[0])  # constant folding of "sep".join([...constants...])
+        if ftext in ("any", "all") and len(c.args) == 1 and not kwargs and isinstance(c.args[0], (ast.GeneratorExp, ast.ListComp)):
+            g = c.args[0]
+            if isinstance(g.elt, ast.UnaryOp) and isinstance(g.elt.op, ast.Not):
+                # De Morgan over a comprehension: any(not P(x) ...) == not all(P(x) ...), all(not P ...) == not any(P ...)
+                inner = type(g)(elt=g.elt.operand, generators=g.generators)
+                ast.copy_location(inner, g)
+                other = "all" if ftext == "any" else "any"
+                oc = ast.Call(func=ast.Name(id=other, ctx=ast.Load()), args=[inner], keywords=[])
+                ast.fix_missing_locations(ast.copy_location(oc, c))
+                return not self.truth(oc, st)
+            if isinstance(g, ast.GeneratorExp):
+                # any(genexp) / all(genexp) == any([listcomp]) / all([listcomp])
+                lc = ast.ListComp(elt=g.elt, generators=g.generators)
+                ast.copy_location(lc, g)
+                return Sym(st.vkey(f"{ftext}(comp:{self.closure_text(lc, st)})"), tag=("call", ftext, args, kwargs))
         if ftext in ("it.chain", "itertools.chain") and args and not kwargs:
             # chain(a, b, ...) visits a's elements, then b's
             out = []
@@ -878,6 +979,22 @@ class Evaluator:
                 lst.extend(args[0])
             elif c.func.attr in ("extend", "insert", "pop", "remove", "clear", "sort", "reverse", "__setitem__", "__delitem__"):
                 st.env[c.func.value.id] = Sym(st.vkey(c.func.value.id))  # no longer known element by element
+        if isinstance(c.func, ast.Attribute) and isinstance(c.func.value, ast.Name) and c.func.attr == "extend" and len(args) == 1 and not kwargs and isinstance(args[0], (list, tuple)) and args[0] and not any(isinstance(x, Sym) and x.text.startswith("*") for x in args[0]):
+            # x.extend((a, b)) on a local is x.append(a); x.append(b)
+            for x in args[0]:
+                st.effect("call", f"{ftext[: -len('.extend')]}.append", x)
+            return None
+        if isinstance(c.func, ast.Attribute) and c.func.attr == "update" and len(c.args) == 1 and not kwargs and isinstance(c.args[0], ast.Dict) and c.args[0].keys and all(k is not None for k in c.args[0].keys):
+            # d.update({k: v, ...}) is d[k] = v; ...
+            recv = ftext[: -len(".update")]
+            for k, v in zip(c.args[0].keys, c.args[0].values):
+                tt = f"{recv}[{vtext(self.ev(k, st))}]"
+                val = self.ev(v, st)
+                if self.hooks.on_store(tt, val, st) is NOTHING:
+                    st.effect("store", tt, val)
+                st.mem[tt] = val
+            st.bump(_base(recv))
+            return None
         if ftext == "list" and len(c.args) == 1 and not kwargs:
             a0 = c.args[0]
             if isinstance(a0, ast.GeneratorExp):
@@ -974,7 +1091,12 @@ class Evaluator:
         if as_stmt or not self.hooks.pure(ftext):
             st.effect("call", ftext, *args, *[(k, v) for k, v in kwargs.items()])
             if isinstance(c.func, ast.Attribute):
-                st.bump(_base(ftext))
+                recv, meth = ftext.rsplit(".", 1)
+                ws = _write_set(self.fi, meth) if re.fullmatch(r"\w+", recv) else None
+                if ws is not None:
+                    st.bump_attrs(recv, ws)  # the callee writes these attributes of its object, nothing else of it
+                else:
+                    st.bump(_base(ftext))
         if not self.hooks.pure(ftext):
             st.counter += 1
             return Sym(f"{text}#{st.counter}", tag=("call", ftext, args, kwargs))
@@ -1063,6 +1185,17 @@ class Evaluator:
                 if nonempty is not None and isinstance(x, (Sym, list, tuple, dict, str)):
                     t = self.truth_of(x, st)
                     return t if nonempty else not t
+        # a value already found truthy on this path, and the result of a str-returning library function, are not None
+        if isinstance(op, (ast.Is, ast.IsNot, ast.Eq, ast.NotEq)):
+            for a, b in ((l, r), (r, l)):
+                if b is None and isinstance(a, Sym):
+                    if st.used.get(a.text) is True or (a.tag and a.tag[0] == "call" and str(a.tag[1]) in _STR_FUNCS):
+                        return isinstance(op, (ast.IsNot, ast.NotEq))
+        # a constructor call never yields None
+        if isinstance(op, (ast.Is, ast.IsNot, ast.Eq, ast.NotEq)):
+            for a, b in ((l, r), (r, l)):
+                if b is None and isinstance(a, Sym) and (a.tag and a.tag[0] == "call" and _is_class_name(str(a.tag[1]).rsplit(".", 1)[-1], self.fi) or re.fullmatch(r"(CFG|PLAT)\d*", a.text)):
+                    return isinstance(op, (ast.IsNot, ast.NotEq))
         # re's search/match/fullmatch return a Match (always truthy) or None: `x is None` is `not x`
         if isinstance(op, (ast.Is, ast.IsNot, ast.Eq, ast.NotEq)):
             for a, b in ((l, r), (r, l)):
@@ -1116,10 +1249,113 @@ class Evaluator:
                 lt, rt = rt, lt
             if lt == rt:
                 return not neg
-        if name == "In" and isinstance(r, (list, tuple)) and not _has_sym(r) and isinstance(l, Sym):
-            pass
+        if name == "In" and isinstance(l, Sym):
+            # x in (c1, c2, ...) / x in {"a": .., "b": ..} with constant members is the chain x == c1 or x == c2 ...
+            members = None
+            if isinstance(r, (list, tuple)) and r and not _has_sym(r) and all(isinstance(c, (str, int, float)) or c is None for c in r):
+                members = list(r)
+            elif isinstance(r, Sym) and r.tag and r.tag[0] in ("dict", "set") and r.tag[1] is not None:
+                members = list(r.tag[1])
+            if members is not None and len(members) <= 12:
+                hit = False
+                for c in members:
+                    if self._cmp1(ast.Eq(), l, c, st):
+                        hit = True
+                        break
+                return (not hit) if neg else hit
         val = st.atom(f"{lt} {name} {rt}")
         return (not val) if neg else val
+
+
+_WRITES = {}
+
+
+def _write_set(fi, meth):
+    """attributes of its own object that a method named `meth` may write (transitively through self-calls), by name over
+    the whole package; None when no method of that name exists in the package (unknown callee: anything may change)"""
+    if fi is None:
+        return None
+    repo = fi.module.repo
+    if repo.root not in _WRITES:
+        from .flow import MUTATORS
+
+        direct, calls = {}, {}
+        for f in repo.all_functions():
+            if f.cls is None:
+                continue
+            w, cs = set(), set()
+            for n in ast.walk(f.node):
+                t = None
+                if isinstance(n, (ast.Attribute, ast.Subscript)) and isinstance(n.ctx, (ast.Store, ast.Del)):
+                    t = n
+                elif isinstance(n, ast.Call) and isinstance(n.func, ast.Attribute):
+                    if isinstance(n.func.value, ast.Name) and n.func.value.id == "self":
+                        cs.add(n.func.attr)
+                        continue
+                    t = n.func.value  # any method called on a member may change that member
+                if t is None:
+                    continue
+                x = t
+                while isinstance(x, (ast.Attribute, ast.Subscript, ast.Call)):
+                    if isinstance(x, ast.Attribute) and isinstance(x.value, ast.Name) and x.value.id == "self":
+                        w.add(x.attr)
+                        break
+                    x = x.value if not isinstance(x, ast.Call) else x.func
+            direct.setdefault(f.name, set()).update(w)
+            calls.setdefault(f.name, set()).update(cs)
+        changed = True
+        while changed:
+            changed = False
+            for name, cs in calls.items():
+                for c2 in cs:
+                    extra = direct.get(c2)
+                    if extra is None:
+                        continue
+                    if not extra <= direct[name]:
+                        direct[name] |= extra
+                        changed = True
+        _WRITES[repo.root] = direct
+    return _WRITES[repo.root].get(meth)
+
+
+_STR_FUNCS = {"os.path.basename", "os.path.dirname", "os.path.abspath", "os.path.realpath", "os.path.join", "os.path.normpath", "os.path.relpath", "str", "repr", "os.getcwd", "os.fspath"}
+_MODCONST = {}
+
+
+def _module_constant(fi, name):
+    """the literal bound to an upper-case module-level name that is assigned exactly once and never written
+    by a function (a table of constants), else None"""
+    if fi is None or not re.fullmatch(r"_?[A-Z][A-Z0-9_]*", name):
+        return None
+    m = fi.module
+    key = (m.repo.root, m.name, name)
+    if key not in _MODCONST:
+        vals = [st.value for st in m.tree.body if isinstance(st, ast.Assign) and len(st.targets) == 1 and isinstance(st.targets[0], ast.Name) and st.targets[0].id == name]
+        ok = len(vals) == 1 and isinstance(vals[0], (ast.Dict, ast.Tuple, ast.List, ast.Set, ast.Constant))
+        if ok:
+            for n in ast.walk(vals[0]):
+                if isinstance(n, (ast.Call, ast.Lambda, ast.ListComp, ast.DictComp, ast.SetComp, ast.GeneratorExp)):
+                    ok = False
+            for f in m.functions.values():
+                for n in ast.walk(f.node):
+                    if isinstance(n, ast.Global) and name in n.names:
+                        ok = False
+                    if isinstance(n, ast.Name) and n.id == name and isinstance(n.ctx, (ast.Store, ast.Del)):
+                        ok = False
+                    if isinstance(n, ast.Call) and isinstance(n.func, ast.Attribute) and isinstance(n.func.value, ast.Name) and n.func.value.id == name and n.func.attr in ("append", "extend", "update", "pop", "clear", "add", "remove", "setdefault", "insert"):
+                        ok = False
+                    if isinstance(n, ast.Subscript) and isinstance(n.value, ast.Name) and n.value.id == name and isinstance(n.ctx, (ast.Store, ast.Del)):
+                        ok = False
+        _MODCONST[key] = vals[0] if ok else None
+    return _MODCONST[key]
+
+
+def _is_class_name(name, fi):
+    if fi is not None:
+        repo = fi.module.repo
+        if any(name in m.classes for m in repo.modules.values()):
+            return True
+    return bool(re.fullmatch(r"[A-Z][A-Za-z0-9]*[a-z][A-Za-z0-9]*", name)) and name not in ("None", "True", "False")
 
 
 def _is_f(v):
@@ -1147,6 +1383,7 @@ def _fstring(parts, node):
     return Sym("f'" + text + "'", tag=("fstring", node, merged))
 
 
+_YF: dict = {}
 _DESUGARED: dict = {}
 
 
